@@ -75,7 +75,7 @@ pub fn check_case(stream: &[u32], prof: &Profile, ev: &mut Evidence) -> Result<(
         }
         let t2 = text.clone();
         let res = lw::catch(move || (lw::syntax_diag_count(&t2), lw::import(&t2)));
-        let replay = json!({"text": text, "profile": prof.name});
+        let replay = json!({"text": text, "profile": prof.name, "stream": stream});
         match res {
             Err(p) => return Err(Violation { sig: format!("panic:{}", p.split(" at ").last().unwrap_or("")), what: format!("front end panicked: {p}"), replay }),
             Ok((n, _)) if n > 0 => {
@@ -111,9 +111,60 @@ pub fn profiles() -> Vec<Profile> {
     ]
 }
 
+/// Re-evaluate a saved reproduction: with its choice stream the whole case (model -> layouts ->
+/// typed view -> model); with a text alone: the text is legal, so no syntax diagnostic, a complete
+/// typed view, and the view printed canonically reads back equal.
+fn replay_file(f: &std::path::Path, ev: &mut Evidence, rep: &mut Report) {
+    let Ok(s) = std::fs::read_to_string(f) else { return };
+    let Ok(v) = serde_json::from_str::<serde_json::Value>(&s) else { return };
+    ev.label("replayed");
+    let r = &v["replay"];
+    if let (Some(stream), Some(pname)) = (r["stream"].as_array(), r["profile"].as_str()) {
+        let stream: Vec<u32> = stream.iter().filter_map(|x| x.as_u64().map(|x| x as u32)).collect();
+        if let Some(p) = profiles().into_iter().find(|p| p.name == pname) {
+            if let Err(v) = check_case(&stream, &p, ev) {
+                rep.violation(v);
+            }
+            return;
+        }
+    }
+    if let Some(text) = r["text"].as_str() {
+        ev.eval();
+        let t2 = text.to_string();
+        let replay = json!({"text": text});
+        match lw::catch(move || (lw::syntax_diag_count(&t2), lw::import(&t2))) {
+            Err(p) => rep.violation(Violation { sig: format!("panic:{}", p.split(" at ").last().unwrap_or("")), what: format!("front end panicked: {p}"), replay }),
+            Ok((n, _)) if n > 0 => {
+                let first = lw::diagnostics(text).0.first().map(|d| format!("{} at {:?}", d.message, d.primary())).unwrap_or_default();
+                rep.violation(Violation { sig: "syntax-error-on-legal-text".into(), what: format!("legal layout draws a syntax diagnostic: {first}\n{text}"), replay });
+            }
+            Ok((_, None)) => rep.violation(Violation { sig: "view-incomplete".into(), what: format!("the typed view of a legal text cannot be walked completely\n{text}"), replay }),
+            Ok((_, Some(g))) => {
+                let p = print(&g).text;
+                match lw::import(&p) {
+                    Some(g2) if named(&g2) == named(&g) => {}
+                    _ => rep.violation(Violation { sig: "roundtrip:repo".into(), what: "model -> text -> model is not the identity".into(), replay }),
+                }
+            }
+        }
+    }
+}
+
 pub fn run(ctx: &Ctx) -> i32 {
     let mut ev = Evidence::new("C13", ctx.tier, ctx.seed, RULE);
     let mut rep = Report::new("C13");
+    let files = match &ctx.replay {
+        Some(p) => vec![p.clone()],
+        None => super::replay_files("C13"),
+    };
+    for f in &files {
+        replay_file(f, &mut ev, &mut rep);
+    }
+    if ctx.replay.is_some() {
+        let code = rep.finish(&mut ev);
+        ev.write();
+        return code;
+    }
     let cases = ctx.tier.pick(1_000_000u32, 6_000_000u32);
     for p in profiles() {
         let out = prop::run_prop("C13", ctx.tier, ctx.seed, p.name, cases / 3, ctx.threads, 700, |stream, ev| check_case(stream, &p, ev));
